@@ -533,7 +533,7 @@ package spdxexp
 //@ pred coveredL(t Tree, l []string) = covLc(t, elems(l), len(l))
 
 // The verdict as a closed function of the expression tree and the allowed list: semL is sem with 'covered' = coveredL.
-//@ def semL(t Tree, c seq[string], n int) bool = ite(isTNode(t), ite(tnConj(t) == "and", semL(tnL(t), c, n) && semL(tnR(t), c, n), semL(tnL(t), c, n) || semL(tnR(t), c, n)), covLc(t, c, n))
+//@ def[3] semL(t Tree, c seq[string], n int) bool = ite(isTNode(t), ite(tnConj(t) == "and", semL(tnL(t), c, n) && semL(tnR(t), c, n), semL(tnL(t), c, n) || semL(tnR(t), c, n)), covLc(t, c, n))
 //@ lemma[C07,C01,induct] semIsSemL: forall c seq[string], n int, t Tree {semL(t, c, n)} :: (forall u Tree {m(u)} :: m(u) <==> covLc(u, c, n)) ==> (sem(t) <==> semL(t, c, n))
 // The allowed list behaves as a set and the verdict is monotone in it (C07): inLc(y, c, n): some entry of c[0:n) denotes
 // the term y; denotesSubset(c1, n1, c2, n2): every term denoted by an entry of the first list is denoted by an entry
@@ -547,6 +547,26 @@ package spdxexp
 //@ lemma[C07,induct] verdictMonotone: forall c1 seq[string], n1 int, c2 seq[string], n2 int, t Tree {semL(t, c1, n1), semL(t, c2, n2)} :: denotesSubset(c1, n1, c2, n2) && semL(t, c1, n1) ==> semL(t, c2, n2)
 //@ lemma[C07] verdictOfSet: forall c1 seq[string], n1 int, c2 seq[string], n2 int, t Tree {semL(t, c1, n1), semL(t, c2, n2)} :: denotesSubset(c1, n1, c2, n2) && denotesSubset(c2, n2, c1, n1) ==> (semL(t, c1, n1) <==> semL(t, c2, n2))
 
+// The verdict is the Boolean function the expression denotes (C10): AND / OR decompose, and the laws of Boolean
+// algebra hold for semL at tree level (theorems about the spec function; together with verdictIsSemL they are
+// statements about Satisfies).  That the text "(E) AND (F)" parses to TNode("and", tree(E), tree(F)) is the token level of C05.
+//@ lemma[C10] andDecomposes: forall a Tree, b Tree, c seq[string], n int :: semL(TNode("and", a, b), c, n) <==> (semL(a, c, n) && semL(b, c, n))
+//@ lemma[C10] orDecomposes: forall a Tree, b Tree, c seq[string], n int :: semL(TNode("or", a, b), c, n) <==> (semL(a, c, n) || semL(b, c, n))
+//@ lemma[C10] andCommutes: forall a Tree, b Tree, c seq[string], n int :: semL(TNode("and", a, b), c, n) <==> semL(TNode("and", b, a), c, n)
+//@ lemma[C10] orCommutes: forall a Tree, b Tree, c seq[string], n int :: semL(TNode("or", a, b), c, n) <==> semL(TNode("or", b, a), c, n)
+//@ lemma[C10] andAssociates: forall a Tree, b Tree, d Tree, c seq[string], n int :: semL(TNode("and", a, TNode("and", b, d)), c, n) <==> semL(TNode("and", TNode("and", a, b), d), c, n)
+//@ lemma[C10] orAssociates: forall a Tree, b Tree, d Tree, c seq[string], n int :: semL(TNode("or", a, TNode("or", b, d)), c, n) <==> semL(TNode("or", TNode("or", a, b), d), c, n)
+//@ lemma[C10] andDistributes: forall a Tree, b Tree, d Tree, c seq[string], n int :: semL(TNode("and", a, TNode("or", b, d)), c, n) <==> semL(TNode("or", TNode("and", a, b), TNode("and", a, d)), c, n)
+//@ lemma[C10] orDistributes: forall a Tree, b Tree, d Tree, c seq[string], n int :: semL(TNode("or", a, TNode("and", b, d)), c, n) <==> semL(TNode("and", TNode("or", a, b), TNode("or", a, d)), c, n)
+//@ lemma[C10] idempotent: forall a Tree, c seq[string], n int :: (semL(TNode("and", a, a), c, n) <==> semL(a, c, n)) && (semL(TNode("or", a, a), c, n) <==> semL(a, c, n))
+//@ lemma[C10] absorbs: forall a Tree, b Tree, c seq[string], n int :: (semL(TNode("and", a, TNode("or", a, b)), c, n) <==> semL(a, c, n)) && (semL(TNode("or", a, TNode("and", a, b)), c, n) <==> semL(a, c, n))
+// ... and the rewrites that keep the set of terms keep the set of leaves (hence, by noTermMissing / noneInvented, the
+// set ExtractLicenses returns)
+//@ lemma[C10] leavesCommute: forall a Tree, b Tree, x Tree, op string :: leafOf(TNode(op, a, b), x) <==> leafOf(TNode(op, b, a), x)
+//@ lemma[C10] leavesAssociate: forall a Tree, b Tree, d Tree, x Tree, op string :: leafOf(TNode(op, a, TNode(op, b, d)), x) <==> leafOf(TNode(op, TNode(op, a, b), d), x)
+//@ lemma[C10] leavesIdempotent: forall a Tree, x Tree, op string :: leafOf(TNode(op, a, a), x) <==> leafOf(a, x)
+//@ lemma[C10] leavesDistribute: forall a Tree, b Tree, d Tree, x Tree :: leafOf(TNode("and", a, TNode("or", b, d)), x) <==> leafOf(TNode("or", TNode("and", a, b), TNode("and", a, d)), x)
+
 //@ func Satisfies
 //@   ghostparam x Tree
 //@   ghostparam s string
@@ -556,7 +576,7 @@ package spdxexp
 //@   assert[C07,scoped] after sortAndDedup#0: sameSet: forall t Tree :: covered(t, allowedNodes) <==> coveredL(t, allowedList)
 //@   ensures[C01,C10] !isErr(result1) ==> (result0 <==> sem(Ptree(testExpression)))
 //@   ensures[C07] verdictOfTheSet: !isErr(result1) ==> forall t Tree {m(t)} :: m(t) <==> coveredL(t, allowedList)
-//@   ensures[C07,C01] verdictIsSemL: !isErr(result1) ==> (result0 <==> semL(Ptree(testExpression), elems(allowedList), len(allowedList)))
+//@   ensures[C07,C01,C10] verdictIsSemL: !isErr(result1) ==> (result0 <==> semL(Ptree(testExpression), elems(allowedList), len(allowedList)))
 //@   loop 0:
 //@     invariant[C01,C10] $i <= len(expandedExpression) && forall k :: 0 <= k && k < $i ==> !all(expandedExpression[k])
 //@   ensures[C04] isErr(result1) <==> (!V(testExpression) || len(allowedList) == 0 || exists k :: 0 <= k && k < len(allowedList) && (!V(allowedList[k]) || K(allowedList[k])))
